@@ -18,14 +18,14 @@ NA = {
     "C18": "pure parser of adapter specifications",
 }
 
-TECH = "deterministic simulation with fault injection: real cutadapt.cli.main under a seeded scheduler (simulated processes, pipes, queue, SimFS), seeded search over schedules/configurations, history oracles, replay+shrink"
+TECH = "deterministic simulation with fault injection: real cutadapt.cli.main under a seeded scheduler (simulated processes with per-process interpreter images under fork or spawn, pipes, queue, file seam, external-compressor pipes, EMFILE on open, terminal or not), seeded search over schedules/configurations/faults, history oracles, replay+shrink"
 
 CHECKS = {
     "C06": dict(
         level="exploration",
         text="Seeded search over schedules: each generated case (records, layout, containers, command line) is executed by the real cutadapt.cli.main once with the serial runner and once with 2-5 simulated worker processes under a seeded scheduling policy, pipe capacity, feeder mode and buffer size; every output file (decompressed), stdout, the text report and the JSON report must be identical, and the run must neither deadlock nor leave children alive. Sampling, not enumeration: a clean batch is evidence, not proof.",
         design="5/C06",
-        note="Trusted: the simulation kernel (threads parked at IPC operations, pickled process state = spawn semantics, message-granular pipes), SimFS below the real xopen with in-process codecs, the stdlib decompressors used by the oracle.",
+        note="Trusted: the simulation kernel (threads parked at IPC operations, pickled process state, per-process images of cutadapt's module/class state under a per-case fork or spawn start method, message-granular pipes), the file seam below the real xopen with in-process codecs (external compressor processes modelled as pipes whose close waits for forked holders; one open() per case may fail with EMFILE; stderr is a terminal in 15 % of cases), the stdlib decompressors used by the oracle.",
     ),
     "C04": dict(
         level="exploration",
